@@ -9,6 +9,15 @@ from ..exec import Exec
 from ..programs import ProgError, control
 
 OUTLINE = [['step', 'a'], ['step', 'b'], ['step', 'c']]
+# the registering step `a` as the last step of a conditional or loop body: the barrier is the same
+SHAPES = {
+    'flat': (OUTLINE, {}),
+    'if': ([['if', [['p', [['step', 'a']]]], None], ['step', 'b'], ['step', 'c']], {'p': [True]}),
+    'elif': ([['if', [['p', [['step', 'd']]], ['q', [['step', 'd'], ['step', 'a']]]], None], ['step', 'b'], ['step', 'c']], {'p': [False], 'q': [True]}),
+    'else': ([['if', [['p', [['step', 'd']]]], [['step', 'a']]], ['step', 'b'], ['step', 'c']], {'p': [False]}),
+    'while': ([['while', 'p', [['step', 'a']]], ['step', 'b'], ['step', 'c']], {'p': [True, False]}),
+    'while-if': ([['while', 'p', [['step', 'd'], ['if', [['q', [['step', 'a']]]], None]]], ['step', 'b'], ['step', 'c']], {'p': [True, False], 'q': [True]}),
+}
 CHILD_PID = 100
 
 
@@ -30,14 +39,15 @@ def build(case):
         else:
             spec = ['child', child_program(aw['outcome']), CHILD_PID + i]
         (rets if aw['how'] == 'ret' else toctx)[aw['key']] = spec
-    behaviour = {'rets': {}, 'tocontext': {}, 'preds': {}}
+    outline, preds = SHAPES[case.get('shape') or 'flat']
+    behaviour = {'rets': {}, 'tocontext': {}, 'preds': preds}
     if rets:
         behaviour['rets']['a'] = [{'__tc__': rets}]
     if toctx:
         behaviour['tocontext']['a'] = [toctx]
     if case.get('reassign'):
         behaviour['tocontext']['b'] = [{case['reassign']['key']: ['done', case['reassign']['value']]}]
-    return wc.make_workchain(OUTLINE, behaviour)
+    return wc.make_workchain(outline, behaviour)
 
 
 def expected_value(aw):
@@ -210,6 +220,14 @@ def enumerate_barrier(nmax):
                                 sched.append(['tick', gap])
                             sched.append(['complete', i])
                         yield {'kind': 'wc_await', 'awaits': _awaits(n, kinds, [list(o) for o in outcomes]), 'schedule': sched}
+    # the registering step inside conditionals and loops
+    for shape in SHAPES:
+        if shape == 'flat':
+            continue
+        for kinds in itertools.product(KINDS_HOW, repeat=2):
+            for outcomes in ([['value', 1], ['value', 2]], [['value', 1], ['exc', 'e']]):
+                for order in itertools.permutations(range(2)):
+                    yield {'kind': 'wc_await', 'shape': shape, 'awaits': _awaits(2, kinds, outcomes), 'schedule': [s for i in order for s in (['tick', 1], ['complete', i])]}
     # pre-completed items and re-assignment
     for order in itertools.permutations(range(2)):
         for reassign in (None, {'key': 'k0', 'value': 'new'}, {'key': 'k2', 'value': 'new'}):
@@ -274,7 +292,8 @@ def strategy_cases(draw, with_pause, failing):
     reassign = None
     if draw(st.integers(0, 3)) == 0:
         reassign = {'key': draw(st.sampled_from([a['key'] for a in aws] + ['fresh'])), 'value': 'new'}
-    return {'kind': 'wc_await', 'awaits': aws, 'reassign': reassign, 'schedule': sched}
+    shape = draw(st.sampled_from(['flat', 'flat'] + list(SHAPES)))
+    return {'kind': 'wc_await', 'shape': shape, 'awaits': aws, 'reassign': reassign, 'schedule': sched}
 
 
 def enumerate_failing(nmax=2):
@@ -321,7 +340,7 @@ def execute(case):
             next_ev = sched[i + 1][0] if i + 1 < len(sched) else None
             if in_pause or prev_ev in ('pause', 'play') or next_ev in ('pause', 'play'):
                 nontrivial = True
-    classes = ['wc', 'n=%d' % len(case['awaits']), 'final:' + obs['views']['state']]
+    classes = ['wc', 'n=%d' % len(case['awaits']), 'final:' + obs['views']['state'], 'shape:' + (case.get('shape') or 'flat')]
     if nontrivial:
         classes.append('wakeup-races-request')
     return {'violations': viol, 'nontrivial': nontrivial, 'classes': classes, 'history': obs['history']}
